@@ -168,7 +168,6 @@ theorem noMarkSince_sameHs {base : List String} {st st2 : St PW PH} (h : NoMarkS
 theorem markKitS (sc : String → Bool) (hk : Option Cfg) (base : List String) :
     InvKitS ({ host := PyLite.hostObs, sc := sc, hk := hk } : Env PW PH) (NoMarkSince base) (fun _ => True) NotMark where
   nUser := notMark_of_user
-  nValue := by unfold NotMark; decide
   nYield := by unfold NotMark; decide
   nReceive := by unfold NotMark; decide
   int := fun _ => trivial
@@ -953,14 +952,12 @@ theorem activation_shape (sc : String → Bool) (cfg : Cfg)
 theorem balX_runInner (sc : String → Bool) (cfg : Cfg) (x : String)
     (hsym : ∀ y, shouldInstr cfg ("#endloop_" ++ y) [] = shouldInstr cfg ("#loop_" ++ y) [])
     (fuel : Nat) (f : FunDef) (hf : coreF f = true) : BalX x (runInner (recEnv sc cfg) fuel f) := by
-  simp only [coreF, Bool.and_eq_true, List.all_eq_true] at hf
-  obtain ⟨⟨⟨⟨⟨hbody, hau⟩, heu⟩, _⟩, _⟩, hparam⟩ := hf
+  have hbody : coreB (bodyWithReturn f) = true := by
+    simp only [coreF, Bool.and_eq_true] at hf
+    exact hf.1.1.1.1.1
   unfold runInner
   refine balX_seqX (balX_stepM ?_ fun _ => balX_done x _) (balB sc cfg x hsym fuel _ hbody)
-  refine balM_bind (balM_of fun b => invM_fetchRefs (markKit sc (some cfg) b) _ fun y hy =>
-      ⟨heu y ((mem_sortNames y _).1 hy), fun _ _ => trivial⟩) fun _ => ?_
-  exact balM_of fun b => invM_paramHooks (markKit sc (some cfg) b) f.params fun p hp =>
-    hau p.name (List.contains_iff_mem.1 (hparam p hp))
+  exact balM_of fun b => invM_prologue (markKit sc (some cfg) b) f hf fun _ _ _ _ => trivial
 
 /-- **Loop markers are balanced.**  For every function of the core fragment, every capture set that takes
     `#enter`, `#exit`, `#error` and treats `#loop_y` and `#endloop_y` alike, every input and driver script, and
